@@ -30,7 +30,7 @@ func main() {
 		"builders of all 11 transaction types with 55% payload mutants (amounts 0/1/2^64*0.0001/2^520, output types, keys, masks, " +
 		"scripts, extras of boundary lengths, references, special inputs), 30% signature mutants (missing/surplus maps, aggregated), " +
 		"12% byte-mutated encodings kept only if the real decoder accepts them, 15% views violating one ledger invariant; " +
-		"non-trivial = accepted or the validation reached the store; distinct by hash of (view, transaction, ts, fork)."
+		"non-trivial = accepted or the validation reached the store; distinct by hash of (view, transaction, ts, fork). Every case is run under both values of the fork flag (implementation + oracle; the twin is also sent to the model when its decision differs)."
 	opt := valsim.Options{OracleC05: true, OracleC01: true}
 	if c.Replay != "" {
 		var cs valsim.Case
